@@ -818,10 +818,12 @@ func condChain(p *core.Program, info *types.Info, fd *ast.FuncDecl, n ast.Node) 
 			continue
 		}
 		next := path[i+1]
+		// `!c` holding is `c` not holding: the chain names the condition without its negations
+		cond, flip := stripNot(ifs.Cond)
 		if next == ast.Node(ifs.Body) {
-			out = append(out, condLit{core.Src(p.Fset, ifs.Cond), true})
+			out = append(out, condLit{core.Src(p.Fset, cond), !flip})
 		} else if ifs.Else != nil && next == ifs.Else {
-			out = append(out, condLit{core.Src(p.Fset, ifs.Cond), false})
+			out = append(out, condLit{core.Src(p.Fset, cond), flip})
 		}
 	}
 	return out
@@ -888,7 +890,8 @@ func (w *keyWalk) simple(st ast.Stmt, s keyState) keyState {
 		}
 	})
 	if as, ok := st.(*ast.AssignStmt); ok && len(as.Lhs) == 1 && len(as.Rhs) == 1 {
-		if id, isIdent := as.Lhs[0].(*ast.Ident); isIdent && id.Name == "code" {
+		// the program counter, whatever it is called: a local of type *encoder.Opcode
+		if id, isIdent := as.Lhs[0].(*ast.Ident); isIdent && isOpcodePtr(w.info.TypeOf(id)) {
 			if sel, isSel := core.Unparen(as.Rhs[0]).(*ast.SelectorExpr); isSel {
 				s.target = sel.Sel.Name
 			} else {
@@ -1068,5 +1071,120 @@ func c03r4(rc *core.RC) {
 		if n < 100 {
 			rc.Unknown(vm+".Run/key-writers", token.NoPos, "only %d opcode handlers write a member key", n)
 		}
+	}
+}
+
+func isOpcodePtr(t types.Type) bool {
+	if t == nil {
+		return false
+	}
+	pt, ok := t.(*types.Pointer)
+	if !ok {
+		return false
+	}
+	n, ok := pt.Elem().(*types.Named)
+	return ok && n.Obj().Name() == "Opcode" && n.Obj().Pkg() != nil && n.Obj().Pkg().Name() == "encoder"
+}
+
+// stripNot removes leading negations (and the parentheses around them) and reports whether their number is odd.
+func stripNot(e ast.Expr) (ast.Expr, bool) {
+	flip := false
+	for {
+		e = core.Unparen(e)
+		u, ok := e.(*ast.UnaryExpr)
+		if !ok || u.Op != token.NOT {
+			return e, flip
+		}
+		e = u.X
+		flip = !flip
+	}
+}
+
+// ---- C03.R6 a nil exit that proceeds to the next opcode writes a value ----
+
+// In the interpreters a handler that finds a zero address and goes on with code.Next has finished its value: what
+// stands before it (a member key, a comma) is already written, so the handler has to write the value, null. A nil
+// exit that only moves on leaves `"key":` followed by nothing (OpRecursivePtr did, for a pointer-shaped struct
+// holding a nil pointer chain to its own type). Exits to code.End / code.NextField belong to omitted members and
+// closing brackets and are other rules' business (C03.R4).
+func c03r6(rc *core.RC) {
+	p := rc.P
+	total := 0
+	for _, vm := range []string{"vm", "vm_indent", "vm_color", "vm_color_indent"} {
+		fd := p.Func(vm, "Run")
+		if fd == nil || fd.Body == nil {
+			rc.Unknown(vm+".Run", token.NoPos, "interpreter not found")
+			continue
+		}
+		info := p.Info(fd)
+		rc.Touch(vm + ".Run")
+		isZeroTest := func(e ast.Expr) bool {
+			found := false
+			ast.Inspect(e, func(m ast.Node) bool {
+				be, ok := m.(*ast.BinaryExpr)
+				if !ok || be.Op != token.EQL {
+					return true
+				}
+				if v, isC := core.ConstInt(info, be.Y); isC && v == 0 {
+					if t := info.TypeOf(be.X); t != nil && t.String() == "uintptr" {
+						found = true
+					}
+				}
+				return true
+			})
+			return found
+		}
+		ast.Inspect(fd.Body, func(m ast.Node) bool {
+			cc, ok := m.(*ast.CaseClause)
+			if !ok || len(cc.List) == 0 {
+				return true
+			}
+			label := core.Src(p.Fset, cc.List[0])
+			if !strings.Contains(label, "Op") {
+				return true
+			}
+			k := 0
+			ast.Inspect(cc, func(x ast.Node) bool {
+				if inner, isCC := x.(*ast.CaseClause); isCC && inner != cc {
+					return false
+				}
+				ifs, ok := x.(*ast.IfStmt)
+				if !ok || !isZeroTest(ifs.Cond) {
+					return true
+				}
+				toNext, writes := false, false
+				for _, st := range ifs.Body.List {
+					as, isAs := st.(*ast.AssignStmt)
+					if !isAs || len(as.Lhs) != 1 || len(as.Rhs) != 1 {
+						continue
+					}
+					if id, isID := as.Lhs[0].(*ast.Ident); isID {
+						t := info.TypeOf(id)
+						if isOpcodePtr(t) {
+							if sel, isSel := core.Unparen(as.Rhs[0]).(*ast.SelectorExpr); isSel && sel.Sel.Name == "Next" {
+								if x, isX := core.Unparen(sel.X).(*ast.Ident); isX && core.ObjOf(info, x) == core.ObjOf(info, id) {
+									toNext = true
+								}
+							}
+						}
+						if t != nil && t.String() == "[]byte" {
+							writes = true
+						}
+					}
+				}
+				if !toNext {
+					return true
+				}
+				k++
+				total++
+				key := fmt.Sprintf("%s.Run/case %s/nil-exit#%d writes-a-value", vm, strings.TrimPrefix(label, "encoder."), k)
+				rc.Check(writes, key, ifs.Pos(), "the branch taken on a zero address (%s) goes on with code.Next only after writing a value (null): what precedes the value, a member key or a comma, is already in the output", core.Src(p.Fset, ifs.Cond))
+				return true
+			})
+			return true
+		})
+	}
+	if total < 40 {
+		rc.Unknown("vm/nil-exits", token.NoPos, "found %d nil exits to code.Next in the four interpreters", total)
 	}
 }
